@@ -61,7 +61,7 @@ def decodeSymbols (t : Table) : Nat → List Bool → List Nat → Option (List 
     match t.entries[idx]? with
     | none => none
     | some e =>
-      if e.nbBits = 0 ∨ bits.length < e.nbBits then none
+      if e.nbBits = 0 ∨ (bits.take e.nbBits).length < e.nbBits then none
       else decodeSymbols t n (bits.drop e.nbBits) (e.symbol :: acc)
 
 /-- §4.2.2: one Huffman stream regenerating `n` literals -/
